@@ -1312,6 +1312,10 @@ func (w *World) startEncore() {
 		}
 		run()
 	})
+	// this runs in AfterStep, after the step's quiescence point and before the options of the next step are drawn up:
+	// let the second run reach its first seam now, or whether its first call is among those options would be up to the
+	// Go scheduler (found by the determinism self-test: 5 divergences in 1280 executions)
+	synctest.Wait()
 }
 
 // AfterStep implements kernel.World.
